@@ -142,6 +142,28 @@ Wrapped ==
      \cup {CC(<<Raw("str", <<cA>>), Box(x)>>) : x \in X}
      \cup {Replace(Cached(x), <<Repl(0, 1, <<cX>>)>>) : x \in X}
 
+(* many-piece ropes reach the line splitter when a CachedSource replays     *)
+(* (its rope has one piece per child) and when a ReplaceSource joins the     *)
+(* replacements left over after its inner text: every way to put a line     *)
+(* break inside or at the edge of one of three small pieces                 *)
+PieceTexts == {<<cA>>, <<NL>>, <<NL, 98>>, <<cA, NL>>, <<98>>}
+ManyPieces ==
+  IF Scope \notin {"c01","c02","c07"} THEN {} ELSE
+  {Cached(CC(<<Raw("str", x), Raw("str", y), Raw("str", z)>>)) :
+     x \in PieceTexts, y \in PieceTexts, z \in PieceTexts}
+  \cup {Cached(CC(<<Raw("str", x), Orig(y), Raw("str", z)>>)) :
+          x \in PieceTexts, y \in PieceTexts, z \in PieceTexts}
+  \cup {Replace(Raw("str", <<cA>>), <<Repl(1, 1, x), Repl(1, 1, y), Repl(2, 2, z)>>) :
+          x \in PieceTexts, y \in PieceTexts, z \in PieceTexts}
+(* a slice of a many-piece rope that starts inside its first piece, adopted  *)
+(* as the rope of a ReplaceSource and sliced again by an enclosing one       *)
+ResliceTrees ==
+  IF Scope \notin {"c07"} THEN {} ELSE
+  LET base == CC(<<Raw("str", <<cA, 98, 99>>), Raw("str", <<100, 101, 102>>)>>)
+  IN {Replace(Replace(base, <<Repl(0, k, <<>>)>>), <<Repl(p, p + 1, <<cX>>)>>) : k \in 1..2, p \in 0..4}
+     \cup {Replace(CC(<<Replace(base, <<Repl(0, k, <<>>)>>), Raw("str", <<103, 104>>)>>),
+                    <<Repl(p, p, <<cX>>)>>) : k \in 1..2, p \in 0..6}
+
 (* a ReplaceSource as a child: what it reports as its end becomes the offset *)
 (* of the next child (trailing replacements with line breaks included)      *)
 ReplThenSibling ==
@@ -168,7 +190,7 @@ ReplPairThenSibling ==
 TreesSmall ==
   IF Scope \notin {"c01","c02"} THEN {} ELSE
   LeavesRich \cup Pairs \cup ReplOverLeaf1 \cup ReplOverLeaf2
-  \cup ReplOverPair \cup Wrapped \cup ReplThenSibling \cup ReplPairThenSibling
+  \cup ReplOverPair \cup Wrapped \cup ReplThenSibling \cup ReplPairThenSibling \cup ManyPieces
 
 (* binary and multi-byte leaves for the content-view scope                  *)
 BinLeaves ==
@@ -210,7 +232,7 @@ ViewTrees ==
   \cup {CC(<<b, a>>) : a \in BinLeaves, b \in {Raw("rawstr", <<cA>>)}}
   \cup {Replace(a, <<Repl(0, 1, <<cX>>)>>) : a \in BinLeaves}
   \cup {Cached(a) : a \in BinLeaves}
-  \cup Pairs \cup ReplOverLeaf2 \cup Wrapped
+  \cup Pairs \cup ReplOverLeaf2 \cup Wrapped \cup ManyPieces \cup ResliceTrees
   \cup {[k |-> "concat", mode |-> "boxed", ch |-> <<Orig(<<cA>>)>>,
          adds |-> <<a, Raw("str", <<NL>>)>>] : a \in BinLeaves}
   \cup {[k |-> "concat", mode |-> "typed",
@@ -233,14 +255,19 @@ MutsSlim(k) ==
           n |-> <<>>, enf |-> 1, api |-> "insert"]}
 
 CloneObs == <<[op |-> "clone", dst |-> 1, src |-> 0], [op |-> "source", r |-> 1]>>
+ObsThenClone == <<[op |-> "size", r |-> 0], [op |-> "clone", dst |-> 1, src |-> 0], [op |-> "source", r |-> 1]>>
 Between ==
   {<<>>, <<Obs("source")>>, <<Obs("rope")>>, <<Obs("buffer")>>, <<Obs("size")>>,
-   <<MapStep(TRUE)>>, <<[op |-> "hash", r |-> 0, h |-> "twox"]>>, CloneObs,
+   <<MapStep(TRUE)>>, <<[op |-> "hash", r |-> 0, h |-> "twox"]>>, CloneObs, ObsThenClone,
    <<Stream(TRUE, FALSE)>>, <<Obs("debug")>>, <<Writer("ok", 0)>>}
-BetweenSlim == {<<>>, <<Obs("source")>>, <<[op |-> "hash", r |-> 0, h |-> "twox"]>>, CloneObs}
+BetweenSlim == {<<>>, <<Obs("source")>>, <<[op |-> "hash", r |-> 0, h |-> "twox"]>>, CloneObs, ObsThenClone}
+(* ... and a clone taken at the very end, after every observer has run on   *)
+(* the original (its lazily built index is then marked valid)               *)
 FinalObs ==
   <<Obs("source"), Obs("rope"), Obs("buffer"), Obs("size"), Writer("ok", 0),
-    Stream(TRUE, FALSE), [op |-> "source", r |-> 1]>>
+    Stream(TRUE, FALSE), [op |-> "source", r |-> 1],
+    [op |-> "clone", dst |-> 2, src |-> 0], [op |-> "source", r |-> 2], [op |-> "rope", r |-> 2],
+    [op |-> "size", r |-> 2], [op |-> "stream", r |-> 2, columns |-> TRUE, final |-> FALSE]>>
 
 HistInner == Raw("str", <<cA, 98, 99>>)
 HistStart == <<Build(Replace(HistInner, <<>>)), [op |-> "clone", dst |-> 1, src |-> 0]>>
